@@ -725,3 +725,5 @@ class SQLiteStateBackend(BaseStateBackend[Params, Result]):
         """Clear all state backend data"""
         delete_tables_with_prefix(self.sqlite_db_path, self.tables.table_prefix)
         init_tables(self.sqlite_db_path, self.tables)
+        # a context still cached would never be stored again in the emptied table
+        self._runner_context_cache.clear()
